@@ -119,9 +119,47 @@ def one(ctx, doc, g, r):
     return g2, {"op": "rename", "graph": enc(g.asdict()), "names": [[a, b] for a, b in r.items()]}
 
 
+MS_COMMANDS = [
+    "-I 2 1 1 -n 1 3.0 -ej 1.0 1 2",                       # graph.demes = [deme2, deme1]
+    "-I 3 1 1 1 -n 2 5.0 -ej 0.5 2 1 -ej 1.0 3 1",
+    "-I 3 1 1 1 -n 1 3.0 -n 3 0.5 -ej 0.5 1 3 -ej 1.0 3 2",
+    "-I 2 1 1 -n 2 2.0 -m 1 2 0.5 -es 0.25 1 0.75 -ej 0.25 3 2 -ej 1.0 2 1",
+    "-I 3 1 1 1 -n 2 7.0 -ma x 1.0 0 0 x 2.0 0.5 0 x",
+]
+
+
+def from_ms_names(ctx):
+    """from_ms(deme_names=...) is a renaming of from_ms(): population k gets names[k-1] — fresh names,
+    permutations of the default names, partial overlaps with them"""
+    import itertools as it
+    for cmd in MS_COMMANDS:
+        g0 = demes.from_ms(cmd, N0=100)
+        npop = max(int(d.name[4:]) for d in g0.demes)
+        defaults = [f"deme{k + 1}" for k in range(npop)]
+        lists = [list(p) for p in it.permutations(defaults)]
+        lists += [[f"P{k}" for k in range(npop)], ["deme2"] + [f"Q{k}" for k in range(npop - 1)], defaults[1:] + ["Z"]]
+        for names in lists:
+            case = {"command": cmd, "deme_names": names}
+            ctx.count(case, names != defaults, tags=["from_ms_deme_names"])
+            ctx.compared += 1
+            try:
+                g = demes.from_ms(cmd, N0=100, deme_names=names)
+            except Exception as e:  # noqa: BLE001
+                ctx.violation(f"from_ms(deme_names=...) raises {type(e).__name__} for valid fresh/permuted names", case)
+                continue
+            want = g0.rename_demes(dict(zip(defaults, names))) if names != defaults else g0
+            if not canon_eq(canon(g.asdict()), canon(want.asdict())):
+                ctx.violation("from_ms(deme_names=...): population k is not the deme named names[k-1] (differs from renaming the default graph)", case,
+                              python=f"/venv/bin/python -c \"import demes; print(demes.from_ms({cmd!r}, N0=100, deme_names={names!r}))\"")
+            for k, nm in enumerate(names):
+                if (defaults[k] in g0) != (nm in g):
+                    ctx.violation("from_ms(deme_names=...): membership by the new name is wrong", case)
+
+
 def run(ctx):
     n = 500 if ctx.tier == "quick" else 6000
     done = 0
+    from_ms_names(ctx)
     while done < n and ctx.time_left() > 8:
         batch = gen_valid_graphs(ctx, min(200, n - done))
         done += len(batch)
